@@ -32,6 +32,7 @@ var _ = time.Second
 func allProps() []*PropSpec {
 	return []*PropSpec{
 		propC08(),
+		propC07(),
 	}
 }
 
@@ -63,6 +64,30 @@ func propC08() *PropSpec {
 			js = append(js, jobsN(".", "VerifDecimalTotal", pick(rng(0, 5), rng(0, 7)), "Decimal(arbitrary bytes, prec -1..20): no panic, in place")...)
 			js = append(js, jobsN(".", "VerifNumberHugeExp", pick([]int{1}, []int{1, 2}), "mantissa e[+-]<17 digits><n symbolic digits>: exponent overflow guards around MinInt/MaxInt")...)
 			js = append(js, Job{Pkg: ".", Fn: "VerifTwinFails", N: 3, ExpectFail: true, Desc: "vacuity twin: assert(false) after the call must be reported"})
+			return js
+		},
+	}
+}
+
+func propC07() *PropSpec {
+	return &PropSpec{
+		ID:   "C07",
+		Rule: "one case = one feasible path of json.Minify (real parse/v2/json parser + Number) + RFC 8259 reference recogniser/tokenizer over ALL byte strings of the stated length; non-trivial = completes with a distinct symbolic output",
+		Assumptions: []string{"input satisfies the harness's RFC 8259 recogniser (strings: any bytes >= 0x20, escapes per RFC)", "Precision = 0", "reader hands the caller's slice to parse.NewInput (as minify.M.Bytes does), one spare byte of capacity"},
+		Outside:     []string{"documents longer than n bytes / templates with holes longer than n", "nesting deeper than what fits in the bound", "Precision > 0"},
+		Stubs:       []string{"parse.NewError/NewErrorLexer (error message formatting) return an opaque non-nil error"},
+		Jobs: func(tier string) []Job {
+			var js []Job
+			q := tier == "quick"
+			pick := func(a, b []int) []int {
+				if q {
+					return a
+				}
+				return b
+			}
+			js = append(js, jobsN("json", "VerifJSONValue", pick(rng(1, 5), rng(1, 6)), "all RFC 8259 texts of n bytes, KeepNumbers symbolic")...)
+			js = append(js, jobsN("json", "VerifJSONTemplate", pick(rng(1, 4), rng(1, 5)), "value hole of n bytes inside 7 document skeletons")...)
+			js = append(js, Job{Pkg: "json", Fn: "VerifJSONTwin", N: 3, ExpectFail: true, Desc: "vacuity twin"})
 			return js
 		},
 	}
